@@ -205,6 +205,25 @@ def chainInScope (tc byEq : Bool) : ChainSt → List (List Query) → Bool
     | none => true
     | some st' => chainInScope tc byEq st' ls
 
+/-- D22 class.  The level just outside the innermost one has all its queries among the merged
+    sources: then (and only then, `C17_popThrough_exact`) the as-found `through` test removes more
+    than the innermost level. -/
+def overPop (srcs : List Query) (levels : List (List Query)) : Bool :=
+  match levels.dropLast.getLast? with
+  | some l => l.all (fun q => srcs.contains q)
+  | none => false
+
+/-- Along the (specified) run, no merge step finds the next level out covered by the sources. -/
+def noOverPop : ChainSt → List (List Query) → Bool
+  | _, [] => true
+  | st, l :: ls =>
+    (match st.mq with
+     | some cur => !overPop (st.srcs ++ cur ++ l) st.levels
+     | none => true) &&
+    match chainStep true false st l with
+    | none => true
+    | some st' => noOverPop st' ls
+
 /-! ### driver entry points -/
 open Grass.Proto
 
@@ -273,6 +292,478 @@ def checkChain (k : Nat) (ins : List (List Query)) (em : Emitted) : Option Nat :
     | some e => em.sat e != ins.all (fun qs => satList qs e)
     | none => false
 
+/-! ## Text level: the media-query parser and printer (round 3)
+
+  `parse/media_query.rs` (`MediaQueryParser`, run on the text left after interpolation —
+  visitor.rs:1406 `visit_media_queries`) and `serializer.rs:517 write_media_query`.
+  Texts are `List Char`.  The scanner is the sub-scanners of `parse/base.rs` that the parser
+  calls (`whitespace` :24, `parse_identifier` :135, `looking_at_identifier` :507,
+  `declaration_value` :381); because the parser always calls the same sub-scanner at a given
+  first character, scanning is done first (`lex`) and the grammar runs on the tokens.
+
+  Outside the model (`supported = false`, the driver answers `unsupported`): escapes `\`, quoted
+  strings, comments and `/`, `#`, `;`, braces, `url(`, control characters other than tab and
+  newline, non-ASCII characters. -/
+
+def lowerC (s : List Char) : List Char := s.map Char.toLower
+
+structure TQuery where
+  modifier : Option (List Char)
+  mtype    : Option (List Char)
+  conds    : List (List Char)
+  conj     : Bool
+  deriving DecidableEq, Repr, Inhabited
+
+inductive Tok where
+  | id (ws : Bool) (s : List Char)    -- identifier; `ws`: white space precedes it
+  | par (ws : Bool) (s : List Char)   -- `( declaration_value )`, text as kept by the parser
+  | comma
+  deriving DecidableEq, Repr, Inhabited
+
+/-- `whitespace_without_comments` (base.rs:12). -/
+def isWs (c : Char) : Bool := c == ' ' || c == '\t' || c == '\n'
+/-- Rust `char::is_ascii_whitespace`. -/
+def isAsciiWs (c : Char) : Bool := c == ' ' || c == '\t' || c == '\n' || c == '\r' || c.toNat == 12
+/-- utils/chars.rs:15 restricted to ASCII. -/
+def isNameStart (c : Char) : Bool := c == '_' || c.isAlpha
+def isName (c : Char) : Bool := isNameStart c || c.isDigit || c == '-'
+
+/-- `looking_at_identifier` (base.rs:507). -/
+def looksIdent : List Char → Bool
+  | c :: rest =>
+    if isNameStart c then true
+    else if c == '-' then
+      match rest with
+      | d :: _ => isNameStart d || d == '-'
+      | [] => false
+    else false
+  | [] => false
+
+def takeName : List Char → List Char × List Char
+  | [] => ([], [])
+  | c :: rest => if isName c then let (a, b) := takeName rest; (c :: a, b) else ([], c :: rest)
+
+/-- `parse_identifier(false, false)` (base.rs:135) on escape-free ASCII text. -/
+def parseIdent (cs : List Char) : Option (List Char × List Char) :=
+  match cs with
+  | '-' :: '-' :: rest => let (a, b) := takeName rest; some ('-' :: '-' :: a, b)
+  | '-' :: c :: rest =>
+    if isNameStart c then let (a, b) := takeName rest; some ('-' :: c :: a, b) else none
+  | c :: rest =>
+    if isNameStart c then let (a, b) := takeName rest; some (c :: a, b) else none
+  | [] => none
+
+/-- `declaration_value(false)` (base.rs:381) on the supported alphabet.  `br`: expected closing
+    brackets, `nl`: `wrote_newline`, `acc`: the buffer, reversed.  Stops before an unmatched
+    closing bracket. -/
+def declValue : List Char → List Char → Bool → List Char → Except String (List Char × List Char)
+  | [], br, _, acc =>
+    if !br.isEmpty then .error "expected closing bracket"
+    else if acc.isEmpty then .error "Expected token." else .ok (acc.reverse, [])
+  | c :: rest, br, nl, acc =>
+    if c == ' ' || c == '\t' then
+      let nextWs := match rest with | d :: _ => isAsciiWs d | [] => false
+      declValue rest br nl (if nl || !nextWs then c :: acc else acc)
+    else if c == '\n' then declValue rest br true (if nl then acc else '\n' :: acc)
+    else if c == '(' then declValue rest (')' :: br) false (c :: acc)
+    else if c == '[' then declValue rest (']' :: br) false (c :: acc)
+    else if c == ')' || c == ']' then
+      match br with
+      | [] => if acc.isEmpty then .error "Expected token." else .ok (acc.reverse, c :: rest)
+      | e :: br' => if c == e then declValue rest br' false (c :: acc) else .error "expected closing bracket"
+    else declValue rest br false (c :: acc)
+
+/-- The scanner: white space, `,`, identifiers, `parse_media_in_parens` (media_query.rs:120). -/
+def lexAux : Nat → List Char → Bool → List Tok → Except String (List Tok)
+  | 0, _, _, _ => .error "fuel"
+  | _ + 1, [], _, acc => .ok acc.reverse
+  | fuel + 1, c :: rest, ws, acc =>
+    if isWs c then lexAux fuel rest true acc
+    else if c == ',' then lexAux fuel rest false (.comma :: acc)
+    else if c == '(' then
+      match declValue rest [] false [] with
+      | .error e => .error e
+      | .ok (v, ')' :: rest') => lexAux fuel rest' false (.par ws ('(' :: v ++ [')']) :: acc)
+      | .ok _ => .error "expected \")\"."
+    else if looksIdent (c :: rest) then
+      match parseIdent (c :: rest) with
+      | some (s, rest') => lexAux fuel rest' false (.id ws s :: acc)
+      | none => .error "Expected identifier."
+    else .error "Expected identifier."
+
+def lex (cs : List Char) : Except String (List Tok) := lexAux (cs.length + 1) cs false []
+
+def kw (s : List Char) (k : String) : Bool := lowerC s == k.toList
+
+/-- `expect_whitespace` (base.rs:118) seen from the token that follows. -/
+def needWs : List Tok → Bool
+  | .id ws _ :: _ => ws
+  | .par ws _ :: _ => ws
+  | _ => false
+
+def notWrap (s : List Char) : List Char := "(not ".toList ++ s ++ [')']
+
+/-- `parse_media_logic_sequence` (media_query.rs:127); the caller has done `expect_whitespace`. -/
+def logicSeq (op : String) : List Tok → Except String (List (List Char) × List Tok)
+  | .par _ s :: .id w' k :: rest =>
+    if kw k op then
+      match rest with
+      | .par true _ :: _ =>
+        match logicSeq op rest with
+        | .ok (cs, r) => .ok (s :: cs, r)
+        | .error e => .error e
+      | _ => .error "Expected whitespace."
+    else .ok ([s], .id w' k :: rest)
+  | .par _ s :: rest => .ok ([s], rest)
+  | _ => .error "expected \"(\"."
+
+/-- After `IDENTIFIER "and"` / `IDENTIFIER IDENTIFIER "and"` (media_query.rs:100–117). -/
+def afterAnd (m t : Option (List Char)) (r : List Tok) : Except String (TQuery × List Tok) :=
+  if !needWs r then .error "Expected whitespace." else
+  match r with
+  | .id _ k :: r' =>
+    if kw k "not" then
+      match r' with
+      | .par true s :: r'' => .ok ({ modifier := m, mtype := t, conds := [notWrap s], conj := true }, r'')
+      | _ => .error "Expected whitespace."
+    else .error "expected \"(\"."
+  | _ =>
+    match logicSeq "and" r with
+    | .ok (cs, r') => .ok ({ modifier := m, mtype := t, conds := cs, conj := true }, r')
+    | .error e => .error e
+
+/-- Lines 76–98 of `parse_media_query`, after the first identifier. -/
+def afterIdent1 (i1 : List Char) (rest : List Tok) : Except String (TQuery × List Tok) :=
+  match rest with
+  | .id _ i2 :: rest' =>
+    if kw i2 "and" then afterAnd none (some i1) rest'
+    else
+      match rest' with
+      | .id _ k :: rest'' =>
+        if kw k "and" then afterAnd (some i1) (some i2) rest''
+        else .ok ({ modifier := some i1, mtype := some i2, conds := [], conj := true }, rest')
+      | _ => .ok ({ modifier := some i1, mtype := some i2, conds := [], conj := true }, rest')
+  | _ => .ok ({ modifier := none, mtype := some i1, conds := [], conj := true }, rest)
+
+/-- `parse_media_query` (media_query.rs:43). -/
+def parseQuery : List Tok → Except String (TQuery × List Tok)
+  | .par _ s :: rest =>
+    match rest with
+    | .id w k :: rest' =>
+      if kw k "and" then
+        if !needWs rest' then .error "Expected whitespace." else
+        match logicSeq "and" rest' with
+        | .ok (cs, r) => .ok ({ modifier := none, mtype := none, conds := s :: cs, conj := true }, r)
+        | .error e => .error e
+      else if kw k "or" then
+        if !needWs rest' then .error "Expected whitespace." else
+        match logicSeq "or" rest' with
+        | .ok (cs, r) => .ok ({ modifier := none, mtype := none, conds := s :: cs, conj := false }, r)
+        | .error e => .error e
+      else .ok ({ modifier := none, mtype := none, conds := [s], conj := true }, .id w k :: rest')
+    | _ => .ok ({ modifier := none, mtype := none, conds := [s], conj := true }, rest)
+  | .id _ i1 :: rest =>
+    if kw i1 "not" then
+      if !needWs rest then .error "Expected whitespace." else
+      match rest with
+      | .par _ s :: rest' =>
+        .ok ({ modifier := none, mtype := none, conds := [notWrap s], conj := true }, rest')
+      | _ => afterIdent1 i1 rest
+    else afterIdent1 i1 rest
+  | _ => .error "Expected identifier."
+
+/-- `MediaQueryParser::parse` (media_query.rs:24) on tokens. -/
+def parseToks : Nat → List Tok → Except String (List TQuery)
+  | 0, _ => .error "fuel"
+  | fuel + 1, ts =>
+    match parseQuery ts with
+    | .error e => .error e
+    | .ok (q, []) => .ok [q]
+    | .ok (q, .comma :: rest) =>
+      match parseToks fuel rest with
+      | .ok qs => .ok (q :: qs)
+      | .error e => .error e
+    | .ok _ => .error "expected no more input."
+
+def supportedChar (c : Char) : Bool :=
+  c.toNat < 128 && (c.toNat ≥ 32 || c == '\t' || c == '\n') && c.toNat != 127 &&
+  !(c == '\\' || c == '"' || c == '\'' || c == '/' || c == '#' || c == ';' || c == '{' || c == '}')
+
+def hasUrl : List Char → Bool
+  | a :: b :: c :: d :: rest =>
+    (a.toLower == 'u' && b.toLower == 'r' && c.toLower == 'l' && d == '(') || hasUrl (b :: c :: d :: rest)
+  | _ => false
+
+def supported (cs : List Char) : Bool := cs.all supportedChar && !hasUrl cs
+
+def parseText (cs : List Char) : Except String (List TQuery) :=
+  match lex cs with
+  | .error e => .error e
+  | .ok ts => parseToks (ts.length + 1) ts
+
+def startsWithL : List Char → List Char → Bool
+  | _, [] => true
+  | [], _ :: _ => false
+  | c :: cs, p :: ps => c == p && startsWithL cs ps
+
+def joinWith (sep : List Char) : List (List Char) → List Char
+  | [] => []
+  | [x] => x
+  | x :: y :: r => x ++ sep ++ joinWith sep (y :: r)
+
+/-- `write_media_query` (serializer.rs:517). -/
+def printQ (q : TQuery) : List Char :=
+  (match q.modifier with | some m => m ++ [' '] | none => []) ++
+  (match q.mtype with
+   | some t => t ++ (if q.conds.isEmpty then [] else " and ".toList)
+   | none => []) ++
+  (match q.conds with
+   | [c] =>
+     if startsWithL c "(not ".toList then "not ".toList ++ (c.drop 5).dropLast
+     else c
+   | cs => joinWith (if q.conj then " and ".toList else " or ".toList) cs)
+
+/-- The prelude after `@media ` in expanded style (serializer.rs:1132–1146). -/
+def printList (qs : List TQuery) : List Char := joinWith ", ".toList (qs.map printQ)
+
+/-! ### text-level merge (`MediaQuery::merge`, media.rs:63–222, spelling kept as the code keeps it) -/
+
+inductive TMerge where
+  | empty | unrepresentable | ok (q : TQuery)
+  deriving DecidableEq, Repr, Inhabited
+
+def TQuery.lmod (q : TQuery) : Option (List Char) := q.modifier.map lowerC
+def TQuery.ltype (q : TQuery) : Option (List Char) := q.mtype.map lowerC
+def TQuery.isNot (q : TQuery) : Bool := q.lmod == some "not".toList
+/-- `matches_all_types` (media.rs:22). -/
+def TQuery.matchesAll (q : TQuery) : Bool :=
+  match q.ltype with
+  | none => true
+  | some t => t == "all".toList
+
+def subsetT (a b : List (List Char)) : Bool := a.all (fun x => b.contains x)
+
+/-- media.rs:208–221: the spelling of the chosen type / modifier. -/
+def finishT (a b : TQuery) (m t : Option (List Char)) (cs : List (List Char)) : TMerge :=
+  .ok { mtype := if t == a.ltype then a.mtype else b.mtype,
+        modifier := if m == a.lmod then a.modifier else b.modifier,
+        conds := cs, conj := true }
+
+def mergeT (a b : TQuery) : TMerge :=
+  if !a.conj || !b.conj then .unrepresentable else
+  if a.ltype.isNone && b.ltype.isNone then
+    .ok { modifier := none, mtype := none, conds := a.conds ++ b.conds, conj := true }
+  else if a.isNot != b.isNot then
+    if a.ltype == b.ltype then
+      let neg := if a.isNot then a.conds else b.conds
+      let pos := if a.isNot then b.conds else a.conds
+      if subsetT neg pos then .empty else .unrepresentable
+    else if a.matchesAll || b.matchesAll then .unrepresentable
+    else if a.isNot then finishT a b b.lmod b.ltype b.conds
+    else finishT a b a.lmod a.ltype a.conds
+  else if a.isNot then
+    if a.ltype != b.ltype then .unrepresentable else
+    let more  := if a.conds.length > b.conds.length then a.conds else b.conds
+    let fewer := if a.conds.length > b.conds.length then b.conds else a.conds
+    if subsetT fewer more then finishT a b a.lmod a.ltype more else .unrepresentable
+  else if a.matchesAll then
+    finishT a b b.lmod (if b.matchesAll && a.ltype.isNone then none else b.ltype) (a.conds ++ b.conds)
+  else if b.matchesAll then finishT a b a.lmod a.ltype (a.conds ++ b.conds)
+  else if a.ltype != b.ltype then .empty
+  else finishT a b (if a.lmod.isSome then a.lmod else b.lmod) a.ltype (a.conds ++ b.conds)
+
+def mergeRowT (a : TQuery) : List TQuery → Option (List TQuery)
+  | [] => some []
+  | b :: bs =>
+    match mergeT a b with
+    | .unrepresentable => none
+    | .empty => mergeRowT a bs
+    | .ok q => (mergeRowT a bs).map (q :: ·)
+
+def mergeListsT : List TQuery → List TQuery → Option (List TQuery)
+  | [], _ => some []
+  | a :: as, bs =>
+    match mergeRowT a bs, mergeListsT as bs with
+    | some r, some rs => some (r ++ rs)
+    | _, _ => none
+
+/-! ### text-level chain (`visit_media_rule`; queries are compared as spelled, `MediaQuery: PartialEq`) -/
+
+/-- `levels`: the enclosing CSS nodes already emitted, outermost first: `some l` a media rule,
+    `none` a node the parent search of `with_parent` does not pass (`@supports`, visitor.rs:1501:
+    only style rules and media rules whose queries are all merged sources are passed). -/
+structure TChainSt where
+  mq     : Option (List TQuery)
+  srcs   : List TQuery
+  levels : List (Option (List TQuery))
+  deriving Repr
+
+def TChainSt.init : TChainSt := { mq := none, srcs := [], levels := [] }
+
+def throughT (srcs : List TQuery) : Option (List TQuery) → Bool
+  | some l => l.all (fun q => srcs.contains q)
+  | none => false
+
+def popThroughT (srcs : List TQuery) (levels : List (Option (List TQuery))) : List (Option (List TQuery)) :=
+  (levels.reverse.dropWhile (throughT srcs)).reverse
+
+/-- Specified behaviour: exactly the innermost media rule (whose queries were merged) is
+    replaced, when no barrier lies between. -/
+def popSpecT (levels : List (Option (List TQuery))) : List (Option (List TQuery)) :=
+  match levels.getLast? with
+  | some (some _) => levels.dropLast
+  | _ => levels
+
+def chainStepT (byEquality : Bool) (st : TChainSt) (l : List TQuery) : Option TChainSt :=
+  match st.mq with
+  | none => some { mq := some l, srcs := [], levels := st.levels ++ [some l] }
+  | some cur =>
+    match mergeListsT cur l with
+    | some [] => none
+    | some r =>
+      let srcs' := st.srcs ++ cur ++ l
+      some { mq := some r, srcs := srcs',
+             levels := (if byEquality then popThroughT srcs' st.levels else popSpecT st.levels) ++ [some r] }
+    | none => some { mq := some l, srcs := [], levels := st.levels ++ [some l] }
+
+/-- One element of a nesting chain as the visitor meets it: a `@media` rule with the text left
+    after interpolation; a style rule or an `@at-root` that keeps the media context (`style`:
+    nothing changes for media); `@supports` (`barrier`: the media context is kept, but the parent
+    search stops there); `@at-root (without: media)` / `(without: all)` (`escape`,
+    visitor.rs:1265: the media context is taken away and the body leaves every enclosing
+    `@media`). -/
+inductive Item where
+  | media (text : List Char)
+  | style
+  | barrier
+  | onlyMedia     -- `@at-root (with: media)`: every enclosing node that is not a media rule is left
+  | escape
+  deriving Repr
+
+inductive TRun where
+  | ok (st : TChainSt)
+  | dropped
+  | error (e : String)
+  deriving Repr
+
+/-- The queries are parsed when the visitor reaches the rule (an unreachable rule's text is never
+    parsed: visitor.rs:1425 runs only when the enclosing rule's body is visited). -/
+def chainRunT (byEq : Bool) : TChainSt → List Item → TRun
+  | st, [] => .ok st
+  | st, .style :: is => chainRunT byEq st is
+  | st, .barrier :: is => chainRunT byEq { st with levels := st.levels ++ [none] } is
+  | st, .onlyMedia :: is => chainRunT byEq { st with levels := st.levels.filter Option.isSome } is
+  | _, .escape :: is => chainRunT byEq .init is
+  | st, .media t :: is =>
+    match parseText t with
+    | .error e => .error e
+    | .ok l =>
+      match chainStepT byEq st l with
+      | none => .dropped
+      | some st' => chainRunT byEq st' is
+
+/-! ### abstraction of text queries to the truth-table model -/
+
+def absMod (m : Option (List Char)) : Option (Option Modifier) :=
+  match m with
+  | none => some none
+  | some s => if lowerC s == "not".toList then some (some .not)
+              else if lowerC s == "only".toList then some (some .only) else none
+
+/-- `ty` interns lower-cased type names, `cd` condition texts. -/
+def absQ (ty : List Char → MType) (cd : List Char → Nat) (q : TQuery) : Option Query :=
+  match absMod q.modifier with
+  | none => none
+  | some m => some { modifier := m, mtype := q.ltype.map ty, conds := q.conds.map cd, conj := q.conj }
+
+def absL (ty : List Char → MType) (cd : List Char → Nat) (l : List TQuery) : Option (List Query) :=
+  l.mapM (absQ ty cd)
+
+/-- The driver's interning of types: `all`, `screen`, `print`, anything else by its position in `tab`. -/
+def tyOf (tab : List (List Char)) (s : List Char) : MType :=
+  if s == "all".toList then .all else if s == "screen".toList then .screen
+  else if s == "print".toList then .print else .other (tab.idxOf s)
+
+def cdOf (tab : List (List Char)) (s : List Char) : Nat := tab.idxOf s
+
+/-! ### driver helpers for the text level -/
+
+def hexL (cs : List Char) : String := hexEncode (String.ofList cs)
+
+def itemOfStr (s : String) : Option Item :=
+  if s == "s" then some .style
+  else if s == "b" then some .barrier
+  else if s == "o" then some .onlyMedia
+  else if s == "e" then some .escape
+  else if s.startsWith "m:" then (hexDecode (s.drop 2).toString).map (fun t => .media t.toList)
+  else none
+
+def itemSupported : Item → Bool
+  | .media t => supported t
+  | _ => true
+
+def trunStr : TRun → String
+  | .dropped => "dropped"
+  | .error _ => "error"
+  | .ok st => "levels" ++ String.join (st.levels.filterMap (fun l => l.map (fun l => " " ++ hexL (printList l))))
+
+/-- The media lists of the items after the last `escape`, parsed (`none`: some text does not parse). -/
+def mediaTexts : List Item → List (List Char) → List (List Char)
+  | [], acc => acc.reverse
+  | .media t :: is, acc => mediaTexts is (t :: acc)
+  | .style :: is, acc => mediaTexts is acc
+  | .barrier :: is, acc => mediaTexts is acc
+  | .onlyMedia :: is, acc => mediaTexts is acc
+  | .escape :: is, _ => mediaTexts is []
+
+def condTab (ls : List (List TQuery)) : List (List Char) :=
+  (ls.flatMap (fun l => l.flatMap (·.conds))).eraseDups
+def typeTab (ls : List (List TQuery)) : List (List Char) :=
+  (ls.flatMap (fun l => l.filterMap (·.ltype))).eraseDups
+
+def parseAll (ts : List (List Char)) : Option (List (List TQuery)) :=
+  ts.mapM (fun t => match parseText t with | .ok l => some l | .error _ => none)
+
+/-- In-scope test of a text chain: every list abstracts (known modifiers only) and the abstract
+    chain is in the property's scope. -/
+def tInScope (ls : List (List TQuery)) : Bool :=
+  let tt := typeTab ls; let ct := condTab ls
+  match ls.mapM (absL (tyOf tt) (cdOf ct)) with
+  | some als => chainInScope true false .init als
+  | none => false
+
+/-- Text clause of the property as a predicate on parsed queries: every condition text, type
+    spelling and modifier spelling of `q` occurs in one of the source queries `qs`. -/
+def TQuery.textFrom (qs : List TQuery) (q : TQuery) : Bool :=
+  q.conds.all (fun c => qs.any (fun s => s.conds.contains c)) &&
+  (match q.mtype with | none => true | some t => qs.any (fun s => s.mtype == some t)) &&
+  (match q.modifier with | none => true | some m => qs.any (fun s => s.modifier == some m))
+
+def textPreserved (pin pout : List (List TQuery)) : Bool :=
+  pout.flatten.all (TQuery.textFrom pin.flatten)
+
+/-- `checkChain` with the environments walked once (same verdict; `checkChain` indexes a list). -/
+def checkChainL (k : Nat) (ins : List (List Query)) (em : Emitted) : Option Nat :=
+  ((envs k).zipIdx.find? fun (e, _) => em.sat e != ins.all (fun qs => satList qs e)).map (·.2)
+
+/-- P̂ on texts: inputs and emitted preludes are parsed by the model parser, conditions and
+    unknown types interned, then `checkChain` over all environments. -/
+def tCheck (ins : List (List Char)) (outs : Option (List (List Char))) : String :=
+  match parseAll ins, (match outs with | none => some none | some o => (parseAll o).map some) with
+  | some pin, some pout =>
+    let all := pin ++ (pout.getD [])
+    let tt := typeTab all; let ct := condTab all
+    if ct.length > 12 then "unsupported" else
+    match pin.mapM (absL (tyOf tt) (cdOf ct)), (match pout with
+        | none => some Emitted.dropped
+        | some o => (o.mapM (absL (tyOf tt) (cdOf ct))).map Emitted.levels) with
+    | some ain, some em =>
+      match checkChainL ct.length ain em with
+      | none => if textPreserved pin (pout.getD []) then "ok holds" else "ok fails text"
+      | some i => s!"ok fails {i}"
+    | _, _ => "unsupported"
+  | _, _ => "bad-parse"
+
 def handle : List String → String
   | ["nest", a, b] =>
     match listOfStr a, listOfStr b with
@@ -281,6 +772,10 @@ def handle : List String → String
   | "chain" :: ls =>
     match ls.mapM listOfStr with
     | some ls => "ok " ++ boolStr (chainInScope true true .init ls) ++ " " ++ emittedStr (chain true true ls) ++ " | " ++ emittedStr (chain true false ls)
+    | none => "bad-op"
+  | "nop" :: ls =>
+    match ls.mapM listOfStr with
+    | some ls => "ok " ++ boolStr (noOverPop .init ls)
     | none => "bad-op"
   | "checkn" :: k :: n :: rest =>
     -- checkn <k> <n> <L1> … <Ln> (dropped | levels <E1> …): P̂ for a chain of n nested rules
@@ -310,6 +805,35 @@ def handle : List String → String
       match checkEmitted k a b (.levels ls) with
       | none => "ok holds" | some i => s!"ok fails {i}"
     | _, _, _, _ => "bad-op"
+  | ["mq", h] =>
+    match hexDecode h with
+    | some t =>
+      if !supported t.toList then "unsupported" else
+      match parseText t.toList with
+      | .ok l => "ok " ++ hexL (printList l)
+      | .error _ => "err"
+    | none => "bad-op"
+  | "tchain" :: its =>
+    match its.mapM itemOfStr with
+    | some is =>
+      if !is.all itemSupported then "unsupported" else
+      let init : TChainSt := .init
+      let scope := match parseAll (mediaTexts is []) with
+        | some ls => tInScope ls
+        | none => false
+      "ok " ++ boolStr scope ++ " " ++ trunStr (chainRunT true init is) ++ " | " ++ trunStr (chainRunT false init is)
+    | none => "bad-op"
+  | "tcheck" :: n :: rest =>
+    match n.toNat? with
+    | some n =>
+      match (rest.take n).mapM hexDecode, rest.drop n with
+      | some ins, ["dropped"] => tCheck (ins.map String.toList) none
+      | some ins, "levels" :: os =>
+        match os.mapM hexDecode with
+        | some os => tCheck (ins.map String.toList) (some (os.map String.toList))
+        | none => "bad-op"
+      | _, _ => "bad-op"
+    | none => "bad-op"
   | _ => "bad-op"
 
 end Grass.Media
